@@ -26,7 +26,7 @@ def plan(tier, seed):
         for l, r in [(t, t) for t in UPTO64] + [(S8, U8), (S32, S8), (U16, U64), (S64, S32), (U32, S64)]:
             ops.append('c08::Ops<%s, %s, %s>::reg()' % (tag, l, r))
     units = []
-    cases = 3000 if quick else 60000
+    cases = 30000 if quick else 200000
     enum_max = 2 ** 22 if quick else 2 ** 32
     for i, part in enumerate(split(div, 8)):
         units.append(Unit('C08-div-gxx-%d' % i, 'gxx', 'props/C08.h', part, rc_cases=cases, enum_max=enum_max, chunk=30))
